@@ -13,7 +13,11 @@ package main
 //     executed on a second, fresh database; the observations of the suffix (re-create and
 //     continue) of both runs are written to never.txt and must be identical;
 //   * a small stream over REF-COUNTED link collections (not part of the Coq store machine):
-//     rc_cases.txt / rc_impl.txt, facts + ValidateDeleted after every transaction.
+//     rc_cases.txt / rc_impl.txt, facts + ValidateDeleted after every transaction;
+//   * BURST histories (section "bursts" below, wirings idx / fkc / casc / cl): the delete of X is one operation
+//     of a transaction that has already written 3..6 neighbouring referrers / links / set values of X (or has
+//     written to the referrers' store in another way), so that the cursor loops of the delete walk buckets
+//     dirtied by the same transaction.
 
 import (
 	"context"
@@ -29,7 +33,34 @@ import (
 	"go.etcd.io/bbolt"
 )
 
-func init() { commands["storec06"] = runStoreC06 }
+func init() {
+	commands["storec06"] = runStoreC06
+	extraWirings["cl"] = wiringC06Cl
+}
+
+// cl (bursts of C06 only; not in allWirings): a cascade wiring whose referrers also carry a set index, a unique
+// index, a child store and a LINK COLLECTION with the store they cascade from, through both kinds of cascade
+// (fk index with cascade delete, nullable fk constraint with CascadeDelete): link churn on a referrer is one more
+// way of writing to the referrers' bucket before the delete, and the nested deletes of a cascade clean link sets
+// that live inside the entity being deleted.  wf_notrace_b: Examples/C06Wirings.v cl_schema_wf.
+func wiringC06Cl() *wiring {
+	return &wiring{Name: "cl", Stores: []*sStore{
+		{Name: "team", Fields: []sField{{Name: "name"}}, Sets: []string{"tagsx"}},
+		{Name: "user", Fields: []sField{{Name: "name"}, {Name: "team"}, {Name: "lead", Ptr: true}}, Sets: []string{"roles"}},
+		{Name: "agent", Parent: "user", Fields: []sField{{Name: "code", Ptr: true}}},
+	}, Script: []wiringDecl{
+		{Kind: "unique", Store: "team", Field: "name"},
+		{Kind: "setidx", Store: "team", Field: "tagsx"},
+		{Kind: "fkindexcascade", Store: "user", Field: "team", Target: "team", Back: "users"},
+		{Kind: "fkcons", Store: "user", Field: "lead", Target: "team", Nullable: true, Casc: "D"},
+		{Kind: "unique", Store: "user", Field: "name"},
+		{Kind: "setidx", Store: "user", Field: "roles"},
+		{Kind: "unique", Store: "agent", Field: "code", Nullable: true},
+		{Kind: "link", Store: "user", Field: "grp", Target: "team", Back: "mem"},
+	}}
+}
+
+var c06BurstWirings = []string{"idx", "fkc", "casc", "cl"}
 
 const c06Reserved = "zq"
 
@@ -279,6 +310,577 @@ func (g *histGen) genHistoryC06(never bool) ([]hTx, int, int) {
 	return txs, bstart, bend
 }
 
+// ---- bursts: a delete inside the transaction that wrote its referrers ---------------------------
+//
+// The tail above always issues the delete of X in a transaction of its own, so every cursor loop of the
+// delete (cascade over the referrers, restrict lookup, link cleanup, set-index cleanup) walks pages that
+// were committed earlier.  bbolt cursors behave differently on a bucket that the SAME transaction has
+// already written (the leaf is an in-memory node: a delete shifts the keys under the cursor).  A burst
+// history therefore puts the delete of X into a multi-operation transaction that first creates /
+// re-points / updates / deletes 3..6 referrers of X with ids that are neighbours in the entities bucket
+// (and optionally a second level of referrers below one of them, link churn, several set values), or
+// that writes to the referrers' store in some other way before the delete (referrers committed earlier).
+// The model gives the expected outcome of such a transaction; the no-trace oracle applies to everything
+// the committed transaction deleted.
+
+// ids used only by bursts: nothing of plainIds sorts between them, so they are neighbours in every bucket
+var c06BurstIds = []string{"k1", "k2", "k3", "k4", "k5", "k6", "k7", "k8"}
+var c06BurstIds2 = []string{"m1", "m2", "m3", "m4", "m5", "m6"}
+var c06SetVals = []string{"r1", "r2", "r3", "r4", "r5", "r6"}
+
+type c06Edge struct {
+	d       wiringDecl
+	cascade bool
+	ptr     bool // the fk field may be nil
+}
+
+func (g *histGen) c06Edges() []c06Edge {
+	var out []c06Edge
+	for _, d := range g.w.Script {
+		if d.Kind != "fkindex" && d.Kind != "fkindexcascade" && d.Kind != "fkcons" {
+			continue
+		}
+		e := c06Edge{d: d, cascade: d.Kind == "fkindexcascade" || (d.Kind == "fkcons" && d.Casc == "D")}
+		for _, f := range g.w.store(d.Store).Fields {
+			if f.Name == d.Field {
+				e.ptr = f.Ptr
+			}
+		}
+		out = append(out, e)
+	}
+	return out
+}
+
+func c06CopyOp(op hOp) hOp {
+	n := op
+	n.F = map[string]*string{}
+	n.S = map[string][]string{}
+	for k, v := range op.F {
+		n.F[k] = v
+	}
+	for k, v := range op.S {
+		n.S[k] = append([]string{}, v...)
+	}
+	return n
+}
+
+// c06BurstCreate appends to ops a create of entity id through store st that is valid in the state the
+// generator believes in: fk fields take the value fixed for them, else an existing target (a missing target
+// of a non-nullable reference is created first, in the same transaction), unique fields a value derived from
+// the id.  wide: the sets get 3..6 neighbouring values.
+func (g *histGen) c06BurstCreate(ops []hOp, st *sStore, id string, fix map[string]*string, wide bool, depth int) []hOp {
+	root := g.rootOf(st.Name)
+	op := hOp{Kind: "C", Store: st.Name, Id: id, Sys: g.r.chance(8)}
+	g.fieldsValue(&op)
+	uniq := g.uniqueFields(st.Name)
+	fields, sets := g.w.allFields(st.Name)
+	for _, f := range fields {
+		if v, ok := fix[f.Name]; ok {
+			if v == nil {
+				delete(op.F, f.Name)
+			} else {
+				op.F[f.Name] = v
+			}
+			continue
+		}
+		owner := st.Name
+		if g.fkTargetOf(owner, f.Name) == "" && st.Parent != "" {
+			owner = st.Parent
+		}
+		if t := g.fkTargetOf(owner, f.Name); t != "" {
+			troot := g.rootOf(t)
+			al := g.aliveIds(troot)
+			switch {
+			case f.Ptr && (len(al) == 0 || g.r.chance(40) || (troot == root && g.r.chance(60))):
+				delete(op.F, f.Name)
+			case len(al) == 0 && depth < 3 && troot != root:
+				tid := g.pickId()
+				ops = g.c06BurstCreate(ops, g.w.store(t), tid, nil, false, depth+1)
+				op.F[f.Name] = sp(tid)
+			case len(al) > 0:
+				op.F[f.Name] = sp(al[g.r.intn(len(al))])
+			}
+			continue
+		}
+		if uniq[f.Name] {
+			if f.Ptr && g.r.chance(40) {
+				delete(op.F, f.Name)
+			} else {
+				op.F[f.Name] = sp("w" + id)
+			}
+		}
+	}
+	for sn, l := range op.S { // an empty member makes the create fail (and with it the whole transaction)
+		var keep []string
+		for _, m := range l {
+			if m != "" {
+				keep = append(keep, m)
+			}
+		}
+		op.S[sn] = keep
+	}
+	if wide {
+		for _, sn := range sets {
+			n := 3 + g.r.intn(4)
+			from := g.r.intn(len(c06SetVals) - n + 1)
+			op.S[sn] = append([]string{}, c06SetVals[from:from+n]...)
+		}
+	}
+	g.alive[root][id] = true
+	return append(ops, op)
+}
+
+// c06Window returns n ids that are neighbours in sort order
+func (g *histGen) c06Window(pool []string, n int) []string {
+	if n > len(pool) {
+		n = len(pool)
+	}
+	from := g.r.intn(len(pool) - n + 1)
+	return append([]string{}, pool[from:from+n]...)
+}
+
+// c06Attach appends, for every id, the operation that makes entity id of the edge's store reference parent x:
+// a create when the generator believes the id is free, a patch of exactly the fk field otherwise.  created
+// collects the create operations (for later full updates).
+func (g *histGen) c06Attach(ops []hOp, e c06Edge, ids []string, x string, created map[string]hOp) []hOp {
+	rroot := g.rootOf(e.d.Store)
+	for _, id := range ids {
+		if rroot == g.rootOf(e.d.Target) && id == x {
+			continue
+		}
+		if g.alive[rroot][id] {
+			op := hOp{Kind: "UP", Store: e.d.Store, Id: id, HasChk: true, Checker: []string{e.d.Field}}
+			g.fieldsValue(&op)
+			op.F[e.d.Field] = sp(x)
+			ops = append(ops, op)
+			continue
+		}
+		st := g.w.store(e.d.Store)
+		if g.r.chance(30) {
+			for _, c := range g.w.Stores {
+				if c.Parent == st.Name {
+					st = c
+				}
+			}
+		}
+		ops = g.c06BurstCreate(ops, st, id, map[string]*string{e.d.Field: sp(x)}, g.r.chance(25), 0)
+		created[id] = ops[len(ops)-1]
+	}
+	return ops
+}
+
+// c06Release appends the operation that stops referrer id referencing x (needed before a restrict delete)
+func (g *histGen) c06Release(ops []hOp, e c06Edge, id, x string) []hOp {
+	troot := g.rootOf(e.d.Target)
+	var others []string
+	for _, z := range g.aliveIds(troot) {
+		if z != x {
+			others = append(others, z)
+		}
+	}
+	op := hOp{Kind: "UP", Store: e.d.Store, Id: id, HasChk: true, Checker: []string{e.d.Field}}
+	g.fieldsValue(&op)
+	switch {
+	case g.r.chance(30) || (!e.ptr && len(others) == 0):
+		g.markDeleted(e.d.Store, id)
+		return append(ops, hOp{Kind: "D", Store: e.d.Store, Id: id})
+	case e.ptr && (len(others) == 0 || g.r.chance(50)):
+		delete(op.F, e.d.Field)
+	default:
+		op.F[e.d.Field] = sp(others[g.r.intn(len(others))])
+	}
+	return append(ops, op)
+}
+
+// c06Churn appends 0..3 operations on the referrers written so far: full update (same references, other plain
+// values), delete of one of them, link churn between a referrer / x and entities of the linked store
+func (g *histGen) c06Churn(ops []hOp, e c06Edge, ids []string, x string, created map[string]hOp) []hOp {
+	rroot := g.rootOf(e.d.Store)
+	for i, n := 0, g.r.intn(4); i < n && len(ids) > 0; i++ {
+		id := ids[g.r.intn(len(ids))]
+		switch k := g.r.intn(100); {
+		case k < 40:
+			if c, ok := created[id]; ok && g.alive[rroot][id] {
+				op := c06CopyOp(c)
+				op.Kind = "UP"
+				for _, f := range g.w.store(rroot).Fields {
+					if g.fkTargetOf(rroot, f.Name) == "" && !g.uniqueFields(rroot)[f.Name] {
+						op.F[f.Name] = sp(g.p.vals[g.r.intn(len(g.p.vals))])
+					}
+				}
+				ops = append(ops, op)
+			}
+		case k < 65:
+			if g.alive[rroot][id] {
+				g.markDeleted(rroot, id)
+				ops = append(ops, hOp{Kind: "D", Store: e.d.Store, Id: id})
+			}
+		default:
+			ops = g.c06LinkOps(ops, rroot, id)
+			ops = g.c06LinkOps(ops, g.rootOf(e.d.Target), x)
+		}
+	}
+	return ops
+}
+
+// c06LinkOps: entity id of root store root gets links to a window of neighbouring entities of the linked store
+// (missing ones are created first), some are removed again
+func (g *histGen) c06LinkOps(ops []hOp, root, id string) []hOp {
+	rs := g.w.store(root)
+	if len(rs.Links) == 0 || !g.alive[root][id] {
+		return ops
+	}
+	l := rs.Links[g.r.intn(len(rs.Links))]
+	oroot := g.rootOf(l.Other)
+	pool := c06BurstIds2
+	if g.r.chance(30) {
+		pool = append(append([]string{}, plainIds...), c06BurstIds2...)
+	}
+	win := g.c06Window(pool, 3+g.r.intn(3))
+	for _, t := range win {
+		if !g.alive[oroot][t] {
+			ops = g.c06BurstCreate(ops, g.w.store(l.Other), t, nil, false, 0)
+		}
+	}
+	if g.r.chance(50) {
+		ops = append(ops, hOp{Kind: "AL", Store: root, Id: id, LinkF: l.Local, Targets: win})
+	} else {
+		for _, t := range win {
+			ops = append(ops, hOp{Kind: "AL", Store: l.Other, Id: t, LinkF: l.OtherField, Targets: []string{id}})
+		}
+	}
+	if g.r.chance(40) {
+		ops = append(ops, hOp{Kind: "RL", Store: root, Id: id, LinkF: l.Local, Targets: []string{win[g.r.intn(len(win))]}})
+	}
+	return ops
+}
+
+// genBurstC06 returns the history and the index of the transaction that contains the delete of X
+// The history is generated against the live database h: every transaction that is complete is executed
+// at once (observations appended to obs) and the generator's belief about which ids exist is refreshed from
+// the database, so that the multi-operation delete transaction is mostly valid (it is rolled back as a whole
+// when one operation fails).
+func (g *histGen) genBurstC06(h *harnessDb, stats map[string]int) ([]hTx, []string, int) {
+	g.p.endInDelete = false
+	g.alive = map[string]map[string]bool{}
+	for _, s := range g.w.Stores {
+		if s.Parent == "" {
+			g.alive[s.Name] = map[string]bool{}
+		}
+	}
+	var txs []hTx
+	var obs []string
+	sync := func() {
+		for len(obs) < len(txs) {
+			obs = append(obs, h.runTxC06(&txs[len(obs)]))
+		}
+		g.refresh(h)
+	}
+	for i, n := 0, 1+g.r.intn(5); i < n; i++ {
+		st := g.w.Stores[g.r.intn(len(g.w.Stores))]
+		id := g.pickId()
+		for try := 0; try < 4 && g.alive[g.rootOf(st.Name)][id]; try++ {
+			id = g.pickId()
+		}
+		txs = g.validCreate(txs, st, id, 0)
+	}
+	for i, n := 0, g.r.intn(3); i < n; i++ {
+		txs = append(txs, g.genTx())
+	}
+	// from here on the burst ids count as ids of the history
+	sync()
+	g.ids = append(append(append([]string{}, g.ids...), c06BurstIds...), c06BurstIds2...)
+
+	edges := g.c06Edges()
+	var casc []c06Edge
+	for _, e := range edges {
+		if e.cascade {
+			casc = append(casc, e)
+		}
+	}
+	var e c06Edge
+	var restr []c06Edge
+	for _, e2 := range edges {
+		if !e2.cascade {
+			restr = append(restr, e2)
+		}
+	}
+	hasLinks := false
+	for _, s := range g.w.Stores {
+		hasLinks = hasLinks || len(s.Links) > 0
+	}
+	linkOnly := false
+	switch k := g.r.intn(100); {
+	case hasLinks && (k < 15 || (len(casc) == 0 && k < 35)):
+		linkOnly = true
+		stats["burst_edge_link"]++
+	case len(casc) > 0 && (k < 75 || len(restr) == 0):
+		e = casc[g.r.intn(len(casc))]
+		stats["burst_edge_cascade"]++
+	default:
+		e = restr[g.r.intn(len(restr))]
+		stats["burst_edge_restrict"]++
+	}
+
+	sys := !g.r.chance(15)
+	if linkOnly {
+		// X of a store with a link collection: linked to 3..5 neighbours that the same transaction created, deleted there
+		var roots []string
+		for _, s := range g.w.Stores {
+			if s.Parent == "" && len(s.Links) > 0 {
+				roots = append(roots, s.Name)
+			}
+		}
+		root := roots[g.r.intn(len(roots))]
+		x := c06Reserved
+		var ops []hOp
+		if al := g.aliveIds(root); len(al) > 0 && g.r.chance(40) {
+			x = al[g.r.intn(len(al))]
+		} else {
+			ops = g.c06BurstCreate(ops, g.w.store(root), x, nil, true, 0)
+		}
+		if g.r.chance(35) && len(ops) > 0 {
+			txs = append(txs, hTx{Sys: true, Ops: ops})
+			ops = nil
+			sync()
+		}
+		ops = g.c06LinkOps(ops, root, x)
+		if g.r.chance(40) {
+			ops = g.c06LinkOps(ops, root, x)
+		}
+		if g.r.chance(30) {
+			txs = append(txs, hTx{Sys: true, Ops: ops})
+			ops = nil
+			sync()
+			ops = g.c06LinkOps(ops, root, x)
+		}
+		ops = append(ops, hOp{Kind: "D", Store: root, Id: x})
+		g.markDeleted(root, x)
+		txs = append(txs, hTx{Sys: sys, Ops: ops})
+		bi := len(txs) - 1
+		sync()
+		txs = g.validCreate(txs, g.w.store(root), x, 3)
+		sync()
+		for i, n := 0, g.r.intn(3); i < n; i++ {
+			txs = append(txs, hTx{Sys: g.r.chance(60), Ops: []hOp{g.opOn(g.w.store(root), x)}})
+		}
+		sync()
+		return txs, obs, bi
+	}
+
+	troot := g.rootOf(e.d.Target)
+	rroot := g.rootOf(e.d.Store)
+	tstore := g.w.store(e.d.Target)
+	// the parent X: a new entity (created in the burst) or an existing one
+	x := c06Reserved
+	var ops []hOp
+	if al := g.aliveIds(troot); len(al) > 0 && g.r.chance(35) {
+		x = al[g.r.intn(len(al))]
+	} else {
+		ops = g.c06BurstCreate(ops, tstore, x, nil, g.r.chance(50), 0)
+	}
+	pool := c06BurstIds
+	if g.r.chance(30) {
+		pool = append(append([]string{}, plainIds...), c06BurstIds...)
+	}
+	ids := g.c06Window(pool, 3+g.r.intn(4))
+	created := map[string]hOp{}
+	mode := g.r.intn(4)
+	stats[fmt.Sprintf("burst_mode_%d", mode)]++
+	commit := func() {
+		if len(ops) > 0 {
+			txs = append(txs, hTx{Sys: true, Ops: ops})
+			ops = nil
+			sync()
+		}
+	}
+	// an operation that writes to the referrers' store without touching the references to x
+	touch := func() {
+		k := g.r.intn(100)
+		if len(g.w.store(rroot).Links) > 0 && g.r.chance(45) {
+			// link churn on a referrer (writes inside its entity bucket) or on x
+			if g.r.chance(70) {
+				ops = g.c06LinkOps(ops, rroot, ids[g.r.intn(len(ids))])
+			} else {
+				ops = g.c06LinkOps(ops, troot, x)
+			}
+			return
+		}
+		switch {
+		case k < 35:
+			free := ""
+			for _, c := range append(append([]string{}, c06BurstIds...), plainIds...) {
+				if !g.alive[rroot][c] && !(rroot == troot && c == x) {
+					free = c
+				}
+			}
+			if free != "" {
+				fix := map[string]*string{}
+				if e.ptr {
+					fix[e.d.Field] = nil
+				} else {
+					for _, z := range g.aliveIds(troot) {
+						if z != x {
+							fix[e.d.Field] = sp(z)
+						}
+					}
+				}
+				ops = g.c06BurstCreate(ops, g.w.store(e.d.Store), free, fix, false, 0)
+			}
+		case k < 60:
+			if c, ok := created[ids[g.r.intn(len(ids))]]; ok && g.alive[rroot][c.Id] {
+				op := c06CopyOp(c)
+				op.Kind = "UP"
+				ops = append(ops, op)
+			}
+		case k < 80:
+			id := ids[g.r.intn(len(ids))]
+			if g.alive[rroot][id] {
+				g.markDeleted(rroot, id)
+				ops = append(ops, hOp{Kind: "D", Store: e.d.Store, Id: id})
+			}
+		default:
+			// another entity of the referrers' store (not of the window) goes away first
+			for _, z := range g.aliveIds(rroot) {
+				if _, in := created[z]; !in && !(rroot == troot && z == x) {
+					g.markDeleted(rroot, z)
+					ops = append(ops, hOp{Kind: "D", Store: rroot, Id: z})
+					break
+				}
+			}
+		}
+	}
+	switch mode {
+	case 0: // everything in one transaction
+		ops = g.c06Attach(ops, e, ids, x, created)
+	case 1: // referrers committed earlier; the delete transaction first writes to their store
+		ops = g.c06Attach(ops, e, ids, x, created)
+		commit()
+		touch()
+		if g.r.chance(30) {
+			touch()
+		}
+	case 2: // part of the referrers committed earlier, the rest written by the delete transaction
+		cut := 1 + g.r.intn(len(ids)-1)
+		if g.r.chance(50) {
+			ops = g.c06Attach(ops, e, ids[:cut], x, created)
+			commit()
+			ops = g.c06Attach(ops, e, ids[cut:], x, created)
+		} else {
+			var even, odd []string
+			for i, id := range ids {
+				if i%2 == 0 {
+					even = append(even, id)
+				} else {
+					odd = append(odd, id)
+				}
+			}
+			ops = g.c06Attach(ops, e, even, x, created)
+			commit()
+			ops = g.c06Attach(ops, e, odd, x, created)
+		}
+	case 3: // two parents with interleaved referrers, both deleted by the same transaction
+		ops = g.c06Attach(ops, e, ids, x, created)
+		if g.r.chance(50) {
+			commit()
+		}
+	}
+	// a second level below one (or all) of the referrers
+	var e2 *c06Edge
+	for i := range casc {
+		if g.rootOf(casc[i].d.Target) == rroot && g.rootOf(casc[i].d.Store) != rroot && g.r.chance(70) {
+			e2 = &casc[i]
+		}
+	}
+	if e2 != nil && e.cascade {
+		stats["burst_second_level"]++
+		ids2 := g.c06Window(c06BurstIds2, 3+g.r.intn(3))
+		created2 := map[string]hOp{}
+		if g.r.chance(60) {
+			ops = g.c06Attach(ops, *e2, ids2, ids[g.r.intn(len(ids))], created2)
+		} else {
+			for _, id2 := range ids2 {
+				ops = g.c06Attach(ops, *e2, []string{id2}, ids[g.r.intn(len(ids))], created2)
+			}
+		}
+	}
+	if g.r.chance(45) {
+		ops = g.c06Churn(ops, e, ids, x, created)
+	}
+	if len(g.w.store(rroot).Links) > 0 && g.r.chance(45) {
+		ops = g.c06LinkOps(ops, rroot, ids[g.r.intn(len(ids))])
+		if g.r.chance(50) {
+			ops = g.c06LinkOps(ops, troot, x)
+		}
+	}
+	y := ""
+	if mode == 3 {
+		// the second parent takes over every other referrer
+		for _, c := range []string{"zr", "zs"} {
+			if !g.alive[troot][c] && c != x {
+				y = c
+			}
+		}
+		ops = g.c06BurstCreate(ops, tstore, y, nil, false, 0)
+		for i, id := range ids {
+			if i%2 == 1 && g.alive[rroot][id] {
+				op := hOp{Kind: "UP", Store: e.d.Store, Id: id, HasChk: true, Checker: []string{e.d.Field}}
+				g.fieldsValue(&op)
+				op.F[e.d.Field] = sp(y)
+				ops = append(ops, op)
+			}
+		}
+	}
+	if !e.cascade && !g.r.chance(15) {
+		for _, id := range ids {
+			if g.alive[rroot][id] && !(rroot == troot && id == x) {
+				ops = g.c06Release(ops, e, id, x)
+			}
+		}
+		// other referrers of x from the prefix (through any restrict edge) are left alone: the delete is then refused
+	}
+	dstore := e.d.Target
+	if g.r.chance(20) {
+		for _, c := range g.w.Stores {
+			if c.Parent == troot && g.r.chance(50) {
+				dstore = c.Name
+			}
+		}
+	}
+	ops = append(ops, hOp{Kind: "D", Store: dstore, Id: x})
+	g.markDeleted(troot, x)
+	if y != "" && g.r.chance(75) {
+		if !e.cascade {
+			for _, id := range ids {
+				if g.alive[rroot][id] {
+					ops = g.c06Release(ops, e, id, y)
+				}
+			}
+		}
+		ops = append(ops, hOp{Kind: "D", Store: e.d.Target, Id: y})
+		g.markDeleted(troot, y)
+	}
+	if e.cascade {
+		for _, id := range ids {
+			g.markDeleted(rroot, id)
+		}
+	}
+	txs = append(txs, hTx{Sys: sys, Ops: ops})
+	bi := len(txs) - 1
+	sync()
+	// re-create X (must behave like a fresh id) and keep working on it
+	if g.r.chance(70) {
+		txs = g.validCreate(txs, tstore, x, 3)
+		txs[len(txs)-1].Sys = true
+		sync()
+		for i, n := 0, g.r.intn(3); i < n; i++ {
+			txs = append(txs, hTx{Sys: g.r.chance(60), Ops: []hOp{g.opOn(tstore, x)}})
+		}
+		sync()
+	}
+	return txs, obs, bi
+}
+
 // ---- execution with the repository's own oracle ---------------------------------------------------
 
 // deletedIds returns (root store, id) of every entity whose Deleted event was delivered in the observation
@@ -510,8 +1112,47 @@ func runStoreC06(o *opts) error {
 		stats["rc_histories"]++
 		stats["rc_tx"] += strings.Count(line, " TX")
 	}
+	// ---- bursts (generated last: the streams above are the same as without them)
+	nb := o.getInt("burst", -1)
+	if nb < 0 {
+		nb = n / 2
+		if o.thorough() {
+			nb = n / 4
+		}
+	}
+	for i := 0; i < nb; i++ {
+		prof := profileFor("c06")
+		w := wiringByName(c06BurstWirings[i%len(c06BurstWirings)])
+		w.derive()
+		g := &histGen{r: r, w: w, p: prof, ids: prof.ids}
+		stats["burst_wiring_"+w.Name]++
+		h, err := openHarnessDb(w, tmp)
+		if err != nil {
+			return err
+		}
+		txs, obs, bi := g.genBurstC06(h, stats)
+		h.close()
+		var cb strings.Builder
+		cb.WriteString(w.text())
+		for k := range txs {
+			cb.WriteString(" ")
+			cb.WriteString(w.txText(&txs[k]))
+		}
+		c := cb.String()
+		cases.line("%s", c)
+		impl.line("%s", strings.Join(obs, ""))
+		nev.line("%s", "-")
+		stats["burst_histories"]++
+		stats["burst_tx"] += len(txs)
+		stats["burst_ops_in_delete_tx"] += len(txs[bi].Ops)
+		if strings.Contains(obs[bi], " COMMIT") {
+			stats["burst_delete_tx_committed"]++
+			stats["burst_deleted_entities"] += strings.Count(obs[bi], " VD:")
+		}
+		stats["validate_deleted_calls"] += strings.Count(strings.Join(obs, ""), " VD:")
+	}
 	writeJSON(o.out, "stats.json", stats)
-	fmt.Fprintf(os.Stderr, "storec06: %d histories, %d rc histories\n", n, nrc)
+	fmt.Fprintf(os.Stderr, "storec06: %d histories, %d rc histories, %d burst histories\n", n, nrc, nb)
 	return nil
 }
 
@@ -618,7 +1259,57 @@ func genRcCase(r *rng) string {
 	var sb strings.Builder
 	sb.WriteString("RC")
 	ntx := 6 + r.intn(14)
+	burstAt := -1
+	if r.chance(40) {
+		burstAt = 3 + r.intn(ntx-3)
+	}
 	for t := 0; t < ntx; t++ {
+		if t == burstAt {
+			// burst: an entity gets ref-counted links to 3..5 neighbouring entities written by the same
+			// transaction (some counted twice, one decremented again) and is deleted there; in a second shape the
+			// links are committed first and the delete transaction starts with another write to the same stores
+			store := []string{"p", "q"}[r.intn(2)]
+			x := "x1"
+			n := 3 + r.intn(3)
+			from := r.intn(len(c06BurstIds) - n + 1)
+			win := c06BurstIds[from : from+n]
+			var ops []string
+			ops = append(ops, fmt.Sprintf("C %s %s", store, hxs(x)))
+			for _, k := range win {
+				ops = append(ops, fmt.Sprintf("C %s %s", other[store], hxs(k)))
+			}
+			for _, k := range win {
+				if r.chance(50) {
+					ops = append(ops, fmt.Sprintf("INC %s %s %s", store, hxs(x), hxs(k)))
+				} else {
+					ops = append(ops, fmt.Sprintf("INC %s %s %s", other[store], hxs(k), hxs(x)))
+				}
+				if r.chance(30) {
+					ops = append(ops, fmt.Sprintf("INC %s %s %s", store, hxs(x), hxs(k)))
+				}
+			}
+			if r.chance(40) {
+				ops = append(ops, fmt.Sprintf("DEC %s %s %s", store, hxs(x), hxs(win[r.intn(n)])))
+			}
+			if r.chance(35) {
+				fmt.Fprintf(&sb, " TX %d %s", len(ops), strings.Join(ops, " "))
+				ops = nil
+				switch r.intn(3) {
+				case 0:
+					ops = append(ops, fmt.Sprintf("C %s %s", other[store], hxs("k9")))
+				case 1:
+					ops = append(ops, fmt.Sprintf("D %s %s", other[store], hxs(win[r.intn(n)])))
+				default:
+					ops = append(ops, fmt.Sprintf("SET %s %s %s %d", store, hxs(x), hxs(win[r.intn(n)]), r.intn(3)))
+				}
+			}
+			if r.chance(50) {
+				ops = append(ops, fmt.Sprintf("D %s %s", store, hxs(x)))
+			} else { // the other direction: one of the neighbours goes, then the hub
+				ops = append(ops, fmt.Sprintf("D %s %s", other[store], hxs(win[r.intn(n)])), fmt.Sprintf("D %s %s", store, hxs(x)))
+			}
+			fmt.Fprintf(&sb, " TX %d %s", len(ops), strings.Join(ops, " "))
+		}
 		nops := 1
 		if r.chance(25) {
 			nops = 2 + r.intn(2)
